@@ -192,7 +192,7 @@ add("C08", "lifecycle-sim", "exploration",
     "deterministic simulation: seeded eig / alter / sweep / flat-TDS / snapshot / reset histories; every eigenvalue result compared with a freshly built twin; output invariants, dense state-matrix recomputation and pencil reference on every call",
     "Partial claim: the history clause (state matrix of the current operating point after any history, including parameter sweeps). After "
     "seeded histories of EIG.run, Model.alter of time constants / damping (also to and from zero for exciter transducer lags, so that a state "
-    "changes class between two analyses), EIG.sweep over them (also ending at zero), flat simulated segments, snapshot save/load and reset, every reported spectrum must equal (as a multiset, 2e-4) that of a fresh System given the same data before its power flow. "
+    "changes class between two analyses), EIG.sweep over them (one device or, in the documented multi-device form, two devices with their own value lists; also ending at zero), flat simulated segments, snapshot save/load and reset, every reported spectrum must equal (as a multiset, 2e-4) that of a fresh System given the same data before its power flow. "
     "Monitored on every call because it is free: counts partition the eigenvalues, participation factors are non-negative with unit sums per "
     "mode, EIG.As equals numpy's dense T^-1(fx - fy gy^-1 gx) from freshly updated Jacobians and an independently rebuilt mass matrix, and the "
     "spectrum equals scipy's finite generalised eigenvalues of the pencil (also with zero time constants).",
